@@ -194,7 +194,7 @@ def run(chk):
         sel = core + others
         Q = 1
     else:
-        Q = 3
+        Q = 4
         sel = core + [k for i, k in enumerate(others) if i % Q == chk.seed % Q]
     chk.extra["selection"] = {"core_entry_points(all partitions, every tier)": len(core),
                               "other_entry_points_this_run": len(sel) - len(core), "of": len(others),
